@@ -223,7 +223,7 @@ func (m *c31Machine) hello(s *c31Slot, kind int, hold uint16, adjState uint8) {
 }
 
 func (m *c31Machine) since() time.Duration {
-	return m.rig.clk.Now().Sub(time.Date(2023, 1, 23, 0, 0, 0, 0, time.UTC))
+	return m.rig.clk.Now().Sub(c31Epoch)
 }
 
 func (m *c31Machine) commit(obs map[int]int) {
@@ -247,7 +247,7 @@ func (m *c31Machine) tickCheck(now time.Time) {
 	for _, s := range m.slots {
 		before, after := s.prev, obs[s.idx]
 		desc := fmt.Sprintf("slot %d (%s %v) at +%v (holding time expires at +%v): %s -> %s by passage of time", s.idx, s.ifc.name, s.mac,
-			m.since(), s.expMax.Sub(now)+m.since(), c31StateName(before), c31StateName(after))
+			m.since(), s.expMax.Sub(c31Epoch), c31StateName(before), c31StateName(after))
 		switch before {
 		case c31Absent:
 			if after != c31Absent {
